@@ -95,8 +95,13 @@ def eval_comprehension(I: Interp, node, fr: Frame, kind):
     finally:
         st.spec_depth -= 1
         asms = st.binder_asms.pop()
+    Kg = st.cfg.get("ground")
     for a in asms:
-        st.assume(z3.ForAll([iv], z3.Implies(rng, a)))
+        if Kg and kind == "dict" and fam is None:
+            for i_ in range(Kg):  # bounded mode: the facts about each item, item by item (no quantifier)
+                st.assume(z3.Implies(z3.IntVal(i_) < n, z3.substitute(a, (iv, z3.IntVal(i_)))))
+        else:
+            st.assume(z3.ForAll([iv], z3.Implies(rng, a)))
     if kind == "dict" and fam is not None:
         return fam
     if kind == "list":
@@ -104,7 +109,7 @@ def eval_comprehension(I: Interp, node, fr: Frame, kind):
         res = SV(smt.mk_ref(r), T.LIST(elt.ty))
         if z3.is_true(cond):
             st.heap["llen"] = z3.Store(st.arr("llen"), r, n)
-            st.heap["lel"] = z3.Store(st.arr("lel"), r, z3.Lambda([iv], elt.t))
+            st.heap["lel"] = z3.Store(st.arr("lel"), r, smt.index_map(st, iv, elt.t))
             return res
         m = st.fresh("comp_len", smt.I)
         f = z3.Function(f"comp_idx!{tag}", smt.I, smt.I)
@@ -129,6 +134,31 @@ def eval_comprehension(I: Interp, node, fr: Frame, kind):
         st.heap["dsz"] = z3.Store(st.arr("dsz"), r, sz)
         return SV(smt.mk_ref(r), T.SET(elt.ty))
     # dict
+    K = st.cfg.get("ground")
+    if K:
+        # bounded mode: at most K source items, so membership and values are finite case distinctions (no quantifier)
+        st.assume(n <= K)
+        r = st.new_ref(DICT_CID)
+        x = z3.Const(f"x!{tag}", Val)
+        at = lambda t, i: z3.substitute(t, (iv, z3.IntVal(i)))  # noqa: E731
+        live = [smt.simp(z3.And(z3.IntVal(i) < n, at(cond, i))) for i in range(K)]
+        has = z3.Lambda([x], z3.Or(*[z3.And(live[i], at(key.t, i) == x) for i in range(K)]))
+        get = st.fresh("comp_get", smt.ArrVV)
+        for i in range(K):
+            get = z3.If(live[i], z3.Store(get, at(key.t, i), at(val.t, i)), get)
+        # size: the number of distinct keys among the items that pass the filter
+        firsts = [z3.And(live[i], *[z3.Not(z3.And(live[j_], at(key.t, j_) == at(key.t, i))) for j_ in range(i)]) for i in range(K)]
+        sz = smt.simp(z3.Sum(*[z3.If(f_, 1, 0) for f_ in firsts])) if K > 1 else z3.If(firsts[0], 1, 0)
+        keys = st.fresh("comp_keys", smt.ArrIV)
+        for kq in range(K):
+            st.assume(z3.Implies(z3.IntVal(kq) < sz, z3.Select(has, z3.Select(keys, z3.IntVal(kq)))))
+            for kq2 in range(kq + 1, K):
+                st.assume(z3.Implies(z3.IntVal(kq2) < sz, z3.Select(keys, z3.IntVal(kq)) != z3.Select(keys, z3.IntVal(kq2))))
+        st.heap["dhas"] = z3.Store(st.arr("dhas"), r, has)
+        st.heap["dget"] = z3.Store(st.arr("dget"), r, get)
+        st.heap["dsz"] = z3.Store(st.arr("dsz"), r, sz)
+        st.heap["dkeys"] = z3.Store(st.arr("dkeys"), r, keys)
+        return SV(smt.mk_ref(r), T.DICT(key.ty, val.ty))
     r = st.new_ref(DICT_CID)
     has = st.fresh("comp_has", smt.ArrVB)
     get = st.fresh("comp_get", smt.ArrVV)
@@ -144,7 +174,11 @@ def eval_comprehension(I: Interp, node, fr: Frame, kind):
     st.heap["dhas"] = z3.Store(st.arr("dhas"), r, has)
     st.heap["dget"] = z3.Store(st.arr("dget"), r, get)
     st.heap["dsz"] = z3.Store(st.arr("dsz"), r, sz)
-    st.heap["dkeys"] = z3.Store(st.arr("dkeys"), r, st.fresh("comp_keys", smt.ArrIV))
+    keys = st.fresh("comp_keys", smt.ArrIV)
+    kq = z3.Int(f"kq!{tag}")
+    # the keys enumerated by position are keys of the dictionary
+    st.assume(z3.ForAll([kq], z3.Implies(z3.And(kq >= 0, kq < sz), z3.Select(has, z3.Select(keys, kq))), patterns=[z3.Select(keys, kq)]))
+    st.heap["dkeys"] = z3.Store(st.arr("dkeys"), r, keys)
     return SV(smt.mk_ref(r), T.DICT(key.ty, val.ty))
 
 
@@ -379,7 +413,7 @@ def build_collection(I: Interp, n, args, kwargs, fr: Frame, node=None):
             iv = z3.Int("i!dl")
             nr = st.new_ref(LIST_CID)
             st.heap["llen"] = z3.Store(st.arr("llen"), nr, n_)
-            st.heap["lel"] = z3.Store(st.arr("lel"), nr, z3.Lambda([iv], z3.Select(keys_, iv) if src.kind == "keys" else z3.Select(get_, z3.Select(keys_, iv))))
+            st.heap["lel"] = z3.Store(st.arr("lel"), nr, smt.index_map(st, iv, z3.Select(keys_, iv) if src.kind == "keys" else z3.Select(get_, z3.Select(keys_, iv))))
             ety = (ty.a[0] if ty.a else T.ANY) if src.kind == "keys" else (ty.a[1] if ty.k == "dict" and len(ty.a) > 1 else T.ANY)
             return SV(smt.mk_ref(nr), T.LIST(ety))
         return PIter("snapshot", src.kind, z3.Select(st.arr("dkeys"), r), z3.Select(st.arr("dget"), r),
@@ -411,7 +445,7 @@ def build_collection(I: Interp, n, args, kwargs, fr: Frame, node=None):
             st.assume(z3.ForAll([iv], z3.Implies(z3.And(iv >= 0, iv < seq.n), a)))
         r = st.new_ref(LIST_CID)
         st.heap["llen"] = z3.Store(st.arr("llen"), r, seq.n)
-        st.heap["lel"] = z3.Store(st.arr("lel"), r, z3.Lambda([iv], it.t))
+        st.heap["lel"] = z3.Store(st.arr("lel"), r, smt.index_map(st, iv, it.t))
         return SV(smt.mk_ref(r), T.LIST(it.ty))
     if n == "tuple" and isinstance(src, SV) and T.strip_opt(src.ty).k == "list":
         # an immutable value determined by the list's content (ghost content id): equal contents give equal tuples, which is
